@@ -189,24 +189,25 @@ def binding_categories(S, opts, cut):
     return out
 
 
-def truncate_float_stream(ctx, rng, run_kind, params):
+def truncate_float_stream(ctx, rng, params):
     n = ctx.pick(600, 6000)
     if not ctx.proof.ok:
         n *= 2
     cases = [c['case'] for c in common.corpus_cases('C15') if c.get('stream') == 'truncate-float']
     cases += [gen_float_case(rng, i) for i in range(n)]
-    nchunk = min(common.NPROC, 8)
-    chunks = [cases[i::nchunk] for i in range(nchunk)]
-    chunks = [ch for ch in chunks if ch]
-    res = run_kind(ctx, 'truncate-float', 'truncate', chunks)
-    hist = {}
-    for ch, (r, err) in zip(chunks, res):
-        if err:
-            ctx.fail('correspondence', 'truncate-float runner failed: ' + err[-400:], None)
-            continue
-        for c, x in zip(ch, r):
-            judge_float_case(ctx, c, x, hist, params)
-    ctx.cov['truncate_float'] = hist
+    nchunk = min(common.NPROC, ctx.pick(4, 8))
+    chunks = [ch for ch in (cases[i::nchunk] for i in range(nchunk)) if ch]
+
+    def judge(res):
+        hist = {}
+        for ch, (r, err) in zip(chunks, res):
+            if err:
+                ctx.fail('correspondence', 'truncate-float runner failed: ' + err[-400:], None)
+                continue
+            for c, x in zip(ch, r):
+                judge_float_case(ctx, c, x, hist, params)
+        ctx.cov['truncate_float'] = hist
+    return 'truncate-float', 'truncate', chunks, judge
 
 
 def judge_float_case(ctx, c, x, hist, params):
@@ -278,7 +279,7 @@ def judge_float_case(ctx, c, x, hist, params):
 
 
 # ------------------------------------------------------------------------------------------------ TruncationError API
-def err_api_stream(ctx, rng, run_kind, params):
+def err_api_stream(ctx, rng, params):
     cases = []
     for i in range(ctx.pick(60, 600)):
         def te():
@@ -294,15 +295,22 @@ def err_api_stream(ctx, rng, run_kind, params):
         cases.append({'a': te(), 'b': te(), 'norm_new': rng.randint(1, 4096) / 4096,
                       'norm_old': rng.choice([1.0, 2.0, 0.5, 4.0]),
                       'S_disc': [rng.randint(0, 1000) / 4096 for _ in range(rng.randint(0, 5))]})
-    (r, err), = run_kind(ctx, 'err-api', 'err_api', [cases])
-    if err:
-        ctx.fail('correspondence', 'err-api runner failed: ' + err[-300:], None)
-        return
-    for c, x in zip(cases, r):
+    def judge(res):
+        (r, err), = res
+        if err:
+            ctx.fail('correspondence', 'err-api runner failed: ' + err[-300:], None)
+            return
+        for c, x in zip(cases, r):
+            judge_err_api(ctx, c, x, params)
+    return 'err-api', 'err_api', [cases], judge
+
+
+def judge_err_api(ctx, c, x, params):
+    if True:
         rec = {'stream': 'err-api', 'case': c}
         if 'runner_error' in x:
             ctx.fail('oracle', 'TruncationError API raised: ' + x['runner_error'][-300:], rec, match_key='C15:err-api')
-            continue
+            return
         (ae, ao), (be, bo) = c['a'], c['b']
         p = []
 
@@ -356,7 +364,7 @@ def err_api_stream(ctx, rng, run_kind, params):
 
 
 # ------------------------------------------------------------------------------------------------ _eig_based_svd
-def eig_svd_stream(ctx, rng, run_kind, params):
+def eig_svd_stream(ctx, rng, params):
     cases = []
     for i in range(ctx.pick(96, 600)):
         mod = rng.choice([None, None, 1, 2, 3])
@@ -381,13 +389,14 @@ def eig_svd_stream(ctx, rng, run_kind, params):
                                'lowrank': rng.random() < 0.2}})
     nchunk = min(common.NPROC, 4)
     chunks = [ch for ch in (cases[i::nchunk] for i in range(nchunk)) if ch]
-    res = run_kind(ctx, 'eig-svd', 'eig_svd', chunks)
-    for ch, (r, err) in zip(chunks, res):
-        if err:
-            ctx.fail('correspondence', 'eig-svd runner failed: ' + err[-400:], None)
-            continue
-        for c, x in zip(ch, r):
-            judge_eig_svd(ctx, c, x, params)
+    def judge(res):
+        for ch, (r, err) in zip(chunks, res):
+            if err:
+                ctx.fail('correspondence', 'eig-svd runner failed: ' + err[-400:], None)
+                continue
+            for c, x in zip(ch, r):
+                judge_eig_svd(ctx, c, x, params)
+    return 'eig-svd', 'eig_svd', chunks, judge
 
 
 def judge_eig_svd(ctx, c, x, params):
@@ -463,7 +472,7 @@ def judge_eig_svd(ctx, c, x, params):
 
 
 # ------------------------------------------------------------------------------------------------ callers
-def callers_stream(ctx, rng, run_kind, params):
+def callers_stream(ctx, rng, params):
     cases = []
     for i in range(ctx.pick(24, 160)):
         model = rng.choice(['tfi', 'xxz'])
@@ -475,42 +484,51 @@ def callers_stream(ctx, rng, run_kind, params):
                                 'trunc_cut': rng.choice([None, 1e-14, 1e-2, 0.3, 'absent'])}})
     nchunk = min(common.NPROC, 8)
     chunks = [ch for ch in (cases[i::nchunk] for i in range(nchunk)) if ch]
-    res = run_kind(ctx, 'callers', 'callers', chunks)
-    for ch, (r, err) in zip(chunks, res):
-        if err:
-            ctx.fail('correspondence', 'callers runner failed: ' + err[-400:], None)
-            continue
-        for c, x in zip(ch, r):
-            rec = {'stream': 'callers', 'case': c}
-            if 'runner_error' in x:
-                ctx.fail('correspondence', 'callers runner failed: ' + x['runner_error'][-400:], rec)
+    def judge(res):
+        for ch, (r, err) in zip(chunks, res):
+            if err:
+                ctx.fail('correspondence', 'callers runner failed: ' + err[-400:], None)
                 continue
-            if 'error' in x:
-                ctx.fail('oracle', 'MPS.compress_svd raised ' + x['error'], rec, match_key='C15:callers')
-                continue
-            p = []
-            calls = x['calls']
-            es = sum(k[0] for k in calls)
-            ov = 1.0
-            keep = 1.0
-            ren = 1.0
-            for k in calls:
-                ov *= k[1]
-                keep *= (1 - k[0])
-                ren *= k[2]
-            if len(calls) != c['L'] - 1:
-                p.append('%d svd_theta calls for %d bonds' % (len(calls), c['L'] - 1))
-            if abs(x['eps'] - es) > 1e-13 + 1e-10 * es or abs(x['ov'] - ov) > 1e-12:
-                p.append('returned error (eps %.6e, ov %.12f) != accumulated reports of the calls (%.6e, %.12f)' % (x['eps'], x['ov'], es, ov))
-            if abs(x['norm'] - x['norm0'] * ren) > 1e-10 * x['norm0']:
-                p.append('psi.norm %.12e != old norm x product of the reported renormalizations %.12e' % (x['norm'], x['norm0'] * ren))
-            # nested orthogonal projections: |psi_old - psi_new|^2 / |psi_old|^2 = 1 - prod(1 - eps_i)
-            if abs(x['dist2'] - (1 - keep)) > 1e-9:
-                p.append('dense distance^2 %.6e of the compressed state != 1 - prod(1 - eps_i) = %.6e' % (x['dist2'], 1 - keep))
-            cm = c['trunc']['chi_max']
-            cm = 100 if cm == 'absent' else cm
-            if cm is not None and max(x['chi']) > cm:
-                p.append('chi %s > chi_max %d' % (x['chi'], cm))
-            ctx.count('callers', c, nontrivial=es > 1e-20, sample={'case': c, 'eps': x['eps'], 'chi': x['chi']})
-            if p:
-                ctx.fail('oracle', 'MPS.compress_svd: ' + '; '.join(p[:4]), dict(rec, impl=x), match_key='C15:callers')
+            for c, x in zip(ch, r):
+                rec = {'stream': 'callers', 'case': c}
+                if 'runner_error' in x:
+                    ctx.fail('correspondence', 'callers runner failed: ' + x['runner_error'][-400:], rec)
+                    continue
+                if 'error' in x:
+                    ctx.fail('oracle', 'MPS.compress_svd raised ' + x['error'], rec, match_key='C15:callers')
+                    continue
+                p = []
+                calls = x['calls']
+                es = sum(k[0] for k in calls)
+                ov = 1.0
+                keep = 1.0
+                ren = 1.0
+                for k in calls:
+                    ov *= k[1]
+                    keep *= (1 - k[0])
+                    ren *= k[2]
+                if len(calls) != c['L'] - 1:
+                    p.append('%d svd_theta calls for %d bonds' % (len(calls), c['L'] - 1))
+                if abs(x['eps'] - es) > 1e-13 + 1e-10 * es or abs(x['ov'] - ov) > 1e-12:
+                    p.append('returned error (eps %.6e, ov %.12f) != accumulated reports of the calls (%.6e, %.12f)' % (x['eps'], x['ov'], es, ov))
+                if abs(x['norm'] - x['norm0'] * ren) > 1e-10 * x['norm0']:
+                    p.append('psi.norm %.12e != old norm x product of the reported renormalizations %.12e' % (x['norm'], x['norm0'] * ren))
+                # nested orthogonal projections: |psi_old - psi_new|^2 / |psi_old|^2 = 1 - prod(1 - eps_i)
+                if abs(x['dist2'] - (1 - keep)) > 1e-9:
+                    p.append('dense distance^2 %.6e of the compressed state != 1 - prod(1 - eps_i) = %.6e' % (x['dist2'], 1 - keep))
+                cm = c['trunc']['chi_max']
+                cm = 100 if cm == 'absent' else cm
+                if cm is not None and max(x['chi']) > cm:
+                    p.append('chi %s > chi_max %d' % (x['chi'], cm))
+                ctx.count('callers', c, nontrivial=es > 1e-20, sample={'case': c, 'eps': x['eps'], 'chi': x['chi']})
+                if p:
+                    ctx.fail('oracle', 'MPS.compress_svd: ' + '; '.join(p[:4]), dict(rec, impl=x), match_key='C15:callers')
+    return 'callers', 'callers', chunks, judge
+
+
+def run_all(ctx, rng, run_kinds, params):
+    """all audit streams in ONE parallel round of implementation processes"""
+    plans = [f(ctx, rng, params) for f in (truncate_float_stream, err_api_stream, eig_svd_stream, callers_stream)]
+    results = run_kinds(ctx, [(stream, kind, chunks) for stream, kind, chunks, _ in plans])
+    for (stream, kind, chunks, judge), res in zip(plans, results):
+        judge(res)
